@@ -92,6 +92,21 @@ def comparator_order(func: FuncInfo) -> Tuple[Optional[List[str]], str]:
                     order.extend(l[1] for l in lefts)  # type: ignore[index]
                     return order, ""
                 return None, f"tuple comparison is not self < other field-wise: {norm(value)}"
+            # self.<key> < other.<key> where <key> is a property / method of the class returning a tuple of its own fields
+            if isinstance(value, ast.Compare) and len(value.ops) == 1 and isinstance(value.ops[0], ast.Lt):
+                sides = []
+                for side in (value.left, value.comparators[0]):
+                    accessor = side.func if isinstance(side, ast.Call) and not side.args else side
+                    if isinstance(accessor, ast.Attribute) and isinstance(accessor.value, ast.Name):
+                        sides.append((accessor.value.id, accessor.attr))
+                if len(sides) == 2 and sides[0][0] == self_name and sides[1][0] == other_name and sides[0][1] == sides[1][1] and func.cls is not None:
+                    key_method = func.cls.find_method(sides[0][1])
+                    if key_method is not None and key_method.params:
+                        own = key_method.params[0]
+                        returned = [n.value for n in walk_local(key_method.node) if isinstance(n, ast.Return) and n.value is not None]
+                        if len(returned) == 1 and isinstance(returned[0], ast.Tuple) and all(isinstance(e, ast.Attribute) and isinstance(e.value, ast.Name) and e.value.id == own for e in returned[0].elts):
+                            order.extend(e.attr for e in returned[0].elts)  # type: ignore[attr-defined]
+                            return order, ""
             field = less(value)
             if field is None:
                 return None, f"final return is not 'self.f < other.f': {norm(value)}"
